@@ -95,7 +95,7 @@ CLAIMS['C10'] = dict(
     design='§4 C01/C02/C03/C10')
 CLAIMS['C07'] = dict(
     text=('Partial: the export-side kernels the statement singles out. label_location lies in the closed shape for rectangles (i32 '
-          'corners), two-point Manhattan paths and (thorough) every non-degenerate triangle on the grid +-2 against the exact C13 oracle; '
+          'corners), two-point Manhattan paths; '
           'export_shape turns a rectangle into the closed five-point boundary through its corners with its layer/datatype numbers and keeps '
           'a path open with exactly its points and width, over all of i64 (out-of-range => Err, never truncation); each of the four Units '
           'written by export_lib is mapped back to itself by import_units.'),
